@@ -5,4 +5,7 @@ INIT Init
 NEXT Next
 INVARIANT IdealPoly
 INVARIANT FastIsCoded
+INVARIANT FastIsCodedAt
+INVARIANT AtIsPlain
+INVARIANT DirRefusedCheap
 INVARIANT Emit
